@@ -707,7 +707,7 @@ def c_backend_rule(ck, mod, ks, label):
             for bb in range(4):
                 cell = outs.get((st, 4 * i + bb))
                 bits.extend(cell if cell is not None else [None] * 8)
-            if any(cell is not None for cell in [outs.get((st, 4 * i + bb)) for bb in range(4)]) and any(b_ is gf2.TOP for b_ in bits if b_ is not None):
+            if any(cell is not None and any(b_ is gf2.TOP for b_ in cell) for cell in [outs.get((st, 4 * i + bb)) for bb in range(4)]):
                 raise Broken("%s: state word %d stored on an exit path is not representable in the term domain (a load the executor cannot resolve): this shape is not analysed" % (fname, i))
             if bits != exp[i]:
                 # untouched memory is fine only if the expected value is the initial memory word (never the case after the loads)
